@@ -16,7 +16,7 @@ Hypotheses, and why each is there:
   and stay below the ids of objects built by the reconcile. The engine numbers pods by position (`idsOk_of_positions`).
   Without it the monitor is false on the model (two snapshot pods sharing an id: last `example`). -/
 namespace Asts.C05
-open Asts
+open Asts Asts.L1b
 
 /-- **Headline.** Under OrderedReady the monitor `C05` is true on the model's output for every spec, every snapshot
     with distinct ordinals and every fault plan — no bound on replicas, slots or pods.
@@ -26,20 +26,20 @@ theorem C05_holds (v : SetView) (cur upd : String) (pods : List Pod) (f : Faults
     (hr : v.replicas = some r) (h0 : 0 ≤ r) (hmono : v.parallel = false) (hwf : wfSnapshot pods = true)
     (hids : IdsOk pods) :
     C05 v pods (observe (updateStatefulSet v cur upd pods f).1.acts) = true :=
-  Asts.C05_holds v cur upd pods f r hr h0 hmono hwf hids
+  Asts.L1b.C05_holds v cur upd pods f r hr h0 hmono hwf hids
 
 /-- The headline with the replica count read as the monitor reads it (`replicasOf v`, 0 for a nil pointer). -/
 theorem C05_holds_total (v : SetView) (cur upd : String) (pods : List Pod) (f : Faults)
     (h0 : 0 ≤ replicasOf v) (hmono : v.parallel = false) (hwf : wfSnapshot pods = true) (hids : IdsOk pods) :
     C05 v pods (observe (updateStatefulSet v cur upd pods f).1.acts) = true :=
-  Asts.C05_holds_total v cur upd pods f h0 hmono hwf hids
+  Asts.L1b.C05_holds_total v cur upd pods f h0 hmono hwf hids
 
 /-- The headline with pod ids given as positions in the snapshot, as the engine and the driver number them. -/
 theorem C05_holds_positions (v : SetView) (cur upd : String) (pods : List Pod) (f : Faults) (r : Int)
     (hr : v.replicas = some r) (h0 : 0 ≤ r) (hmono : v.parallel = false) (hwf : wfSnapshot pods = true)
     (hpos : ∀ (i : Nat) (p : Pod), pods[i]? = some p → p.id = i) (hlen : pods.length < freshId) :
     C05 v pods (observe (updateStatefulSet v cur upd pods f).1.acts) = true :=
-  Asts.C05_holds v cur upd pods f r hr h0 hmono hwf (idsOk_of_positions hpos hlen)
+  Asts.L1b.C05_holds v cur upd pods f r hr h0 hmono hwf (idsOk_of_positions hpos hlen)
 
 /-- **Clause 1** (model actions; DESIGN Appendix C.2 ported): under OrderedReady the creates and deletes of one reconcile
     all target the same ordinal — whatever the spec, the snapshot and the faults. -/
@@ -89,7 +89,7 @@ theorem classify_why (v : SetView) (cur upd : String) (pods : List Pod) (f : Fau
     (hr : v.replicas = some r) (h0 : 0 ≤ r) (hids : IdsOk pods) {o : Int} {id : Nat} {why : Why}
     (h : Action.delete o id why ∈ (updateStatefulSet v cur upd pods f).1.acts) :
     classify (desired r v.slots) pods (Action.observe (.delete o id why)) = why.cls :=
-  Asts.classify_why v cur upd pods f r hr h0 hids h
+  Asts.L1b.classify_why v cur upd pods f r hr h0 hids h
 
 /-! ### non-vacuity: three desired ordinals thinned by a slot (`D = [0, 2, 3]`), pods beyond the range -/
 
